@@ -11,6 +11,7 @@ import TraitsVerif.Lemmas.SeqFault
 import TraitsVerif.Props.C04
 import TraitsVerif.Props.C12
 import TraitsVerif.Props.C17
+import TraitsVerif.Props.C02
 import TraitsVerif.Lemmas.Effects
 import TraitsVerif.Generated.Effects
 namespace TraitsVerif.Props.C19
@@ -149,6 +150,30 @@ theorem C19_factory_raises {α : Type} (cfg : Model.Adapt.Cfg) (f : Model.Adapt.
     (h : (Model.Adapt.adaptLoop cfg f adaptee target fuel st).1 = .raised e) :
     ∃ k o a', f k o a' = .raise e :=
   Lemmas.Adapt.adaptLoop_raised cfg f adaptee target fuel st e h
+
+/-! ### Custom trait validator raising; change handler raising (scalar attributes) -/
+
+/-- A validator that raises (TraitError or anything else) during an attribute
+assignment: the exception reaches the caller unchanged, nothing is stored, no
+handler is called — the object state is the pre-state up to the validator's own
+call counter (C02's model of `setattr_trait` / `setattr_event`). -/
+theorem C19_validator_raises (E : Model.Attr.Env) (t : Model.Attr.TraitCore) (s : Model.Attr.OSt)
+    (v : Model.Attr.Id) (e : Exc) (nv : Nat)
+    (hrej : Model.Attr.specValidate E t (t.kind == .trait) s.ctx.nval v = (.error e, nv)) :
+    Model.Attr.step E t s (.set v) = ({ exc := some e }, s.withNval nv) :=
+  C02.C02_rejected_silent E t s v e nv hrej
+
+/-- A change handler that raises (under the default, non-re-raising exception
+handlers): the operation is complete and all other handlers still run — the
+whole final state, every handler's call log included, is the one reached with
+handlers that never raise; hence every subsequent operation behaves as on an
+object whose handlers never failed. -/
+theorem C19_handler_raises (E : Model.Attr.Env)
+    (g : Nat → Callback (Model.Attr.Id × Model.Attr.Id) Model.Attr.HAct)
+    (q : Model.Attr.Quiet E) (q' : Model.Attr.Quiet { E with handler := g })
+    (t : Model.Attr.TraitCore) (h : List Model.Attr.Op) (s : Model.Attr.OSt) :
+    Model.Attr.run E t s h = Model.Attr.run { E with handler := g } t s h :=
+  C02.C02_handler_exception E g q q' t h s
 
 /-! ### Validation precedes mutation precedes notification (source order)
 
